@@ -85,7 +85,7 @@ def run(kind, K, w=None, witness=False):
         saw_cap = False
         for k in range(K):
             h.tag = 'step%d' % k
-            h.call(\"TimeWindow::record\", [win, event(I(ts[k], "u64"), k)])
+            h.call("TimeWindow::record", [win, event(I(ts[k], "u64"), k)])
             lo = z3.If(ts[k] - d < 0, 0, ts[k] - d)
             keep = [band(b, ts[i] >= lo) for i, b in enumerate(keep)] + [True]
             cnt = z3.Sum([z3.If(zbool(b), 1, 0) for b in keep])
@@ -122,7 +122,7 @@ def run(kind, K, w=None, witness=False):
             saw_two = False
             for k in range(K):
                 h.tag = 'step%d' % k
-                h.call(\"WindowManager::process_event\", [m, event(I(ts[k], "u64"), k)])
+                h.call("WindowManager::process_event", [m, event(I(ts[k], "u64"), k)])
                 wins = ip.deref(h.call("WindowManager::active_windows", [h.get("m")]))
                 aligned = ts[k] - ts[k] % w
                 hits = []
